@@ -1,3 +1,4 @@
+mod crypto;
 mod dispatch;
 mod kernels;
 mod prog;
@@ -121,6 +122,10 @@ fn answer(line: &str, cap: usize) -> String {
         | "mvan" | "bary" | "lpi" => {
             let toks: Vec<&str> = line.split(' ').filter(|s| !s.is_empty()).collect();
             catch_unwind(AssertUnwindSafe(|| kernels::answer(&toks))).unwrap_or_else(|_| "panic".to_string())
+        }
+        "tr" | "g1dec" | "g2dec" | "g1mul" | "g1add" | "g2mul" => {
+            let toks: Vec<&str> = line.split(' ').filter(|s| !s.is_empty()).collect();
+            catch_unwind(AssertUnwindSafe(|| crypto::answer(&toks))).unwrap_or_else(|_| "panic".to_string())
         }
         _ => "bad-request".to_string(),
     }
